@@ -138,3 +138,13 @@ Example C13_nonvacuous :
     /\ o_res o = RReply {| m_tid := 0; m_uid := 5; m_fc := 3; m_id := 0 |} /\ s_tx st' = [] /\ s_tid st' = 0.
 Proof. exact retry_example. Qed.
 Print Assumptions C13_nonvacuous.
+
+(* the error object execute returns answers isError() = True (generated from exceptions.ModbusException.isError,
+   which ModbusIOException inherits); a reply answers by its function code *)
+Theorem C13_error_object_is_error : forall fc, is_error_of code (RErr fc) = Some true.
+Proof. exact error_object_is_error. Qed.
+Print Assumptions C13_error_object_is_error.
+
+Theorem C13_reply_is_error : forall m, is_error_of code (RReply m) = Some (m_fc m >? 128).
+Proof. exact reply_is_error. Qed.
+Print Assumptions C13_reply_is_error.
